@@ -50,8 +50,12 @@ GUARD_IDIOMS = [
     ("pp-depth", r"\bdepth\s*<\s*0\b", "JANET_RECURSION_GUARD"),
     ("depth-param", r"\bdepth\s*(?:>|>=)\s*JANET_RECURSION_GUARD", "JANET_RECURSION_GUARD"),
     ("depth-param", r"--\s*depth\s*(?:<=|==|<)\s*0|\bdepth\s*--\s*(?:<=|==|<)\s*0|\bdepth\s*<=\s*0", "JANET_RECURSION_GUARD"),
+    ("ffi-recur", r"\brecur\s*==\s*0\b", "JANET_FFI_MAX_RECUR"),
     ("recursion-guard-macro", r"\bJANET_RECURSION_GUARD\b", "JANET_RECURSION_GUARD"),
 ]
+# the VM re-entry counter is global state (janet_vm.stackn), so a function that directly calls a helper whose body
+# contains that check is guarded as well (janet_continue / janet_continue_signal -> janet_check_can_resume)
+HELPER_IDIOM = GUARD_IDIOMS[0]
 
 # indirect-call edges judged infeasible: (caller regex, callee regex, reason).  Fixed on the clean tree; trusted base.
 EXEMPT_INDIRECT = []
@@ -400,7 +404,7 @@ def function_sources(src, names):
 
 def macro_defs(src):
     out = {}
-    for m in re.finditer(r"^[ \t]*#[ \t]*define[ \t]+(JANET_RECURSION_GUARD|JANET_MAX_PROTO_DEPTH|JANET_MAX_MACRO_EXPAND)[ \t]+(\d+)", src, re.M):
+    for m in re.finditer(r"^[ \t]*#[ \t]*define[ \t]+(JANET_RECURSION_GUARD|JANET_MAX_PROTO_DEPTH|JANET_MAX_MACRO_EXPAND|JANET_FFI_MAX_RECUR)[ \t]+(\d+)", src, re.M):
         out.setdefault(m.group(1), int(m.group(2)))
     return out
 
@@ -480,7 +484,9 @@ def extract(build, exempt=None):
     g.edges = {(a, b): k for (a, b), k in edges.items() if a in cyc and b in cyc and comp_of[a] == comp_of[b]}
     # guards from source
     src = directives_only(build)
-    bodies = function_sources(src, g.nodes)
+    bodies = function_sources(src, sorted(ir.funcs))
+    helpers = sorted(nm for nm, b in bodies.items() if b and re.search(HELPER_IDIOM[1], b))
+    g.helpers = helpers
     g.limits = macro_defs(src)
     if "JANET_RECURSION_GUARD" not in g.limits:
         raise ExtractError("JANET_RECURSION_GUARD not found")
@@ -495,6 +501,11 @@ def extract(build, exempt=None):
             if re.search(rx, body):
                 g.guard[nm] = (tag, g.limits.get(lim, 0))
                 break
+        else:
+            for h in helpers:
+                if h in ir.funcs[nm]["calls"]:
+                    g.guard[nm] = (HELPER_IDIOM[0] + "-via-" + h, g.limits.get(HELPER_IDIOM[2], 0))
+                    break
     g.bodies = bodies
     # rank certificate: longest path in the non-guard subgraph (per SCC); cycles -> leftover nodes
     ng = [n for n in g.nodes if n not in g.guard]
